@@ -204,7 +204,7 @@ func c14Run(c *ev.Ctx, k c14kind, variant string, sc []int) {
 	for _, e := range sc {
 		switch e {
 		case 4: // C: a flush naming the most recent flush (or an idle tag if none)
-			ft := uint16(330 + nF)
+			ft := uint16(2000 + nF)
 			nF++
 			old := uint64(4242)
 			if lastFlush != 0 {
@@ -216,10 +216,7 @@ func c14Run(c *ev.Ctx, k c14kind, variant string, sc []int) {
 			quiesce.WaitUntil(func() bool { return p.HasReplyFrom(ft, from) != nil }, 30*time.Second)
 		case 0: // F
 			flushSentWhileParked = flushSentWhileParked || !released
-			tagF := uint16(310 + nF)
-			if nF == 0 {
-				tagF = 310
-			}
+			tagF := uint16(1000 + nF) // tag ranges of F, C and T never meet, however long the script
 			nF++
 			lastFlush = tagF
 			flushA = append(flushA, tagF)
@@ -248,7 +245,7 @@ func c14Run(c *ev.Ctx, k c14kind, variant string, sc []int) {
 			}
 		case 3: // T
 			// StatFS is unclassified: not even a parked rename orders it
-			tagT := uint16(320 + nT)
+			tagT := uint16(3000 + nT)
 			nT++
 			p.Send(wire.Tstatfs, tagT, fidT)
 			expect[tagT] = true
@@ -333,7 +330,10 @@ func tagName(t uint16) string {
 		return "A"
 	case 301:
 		return "B"
-	case 310, 311:
+	case 311:
+		return "flush"
+	}
+	if t >= 1000 && t < 3000 {
 		return "flush"
 	}
 	return "traffic"
